@@ -24,8 +24,8 @@ from simkit.world import digest
 ID = "C39"
 LEVEL = "exploration"
 ENGINE = "simkit/storage-world"
-QUICK_RUNS = 40000
-QUICK_BUDGET_S = 120
+QUICK_RUNS = 80000
+QUICK_BUDGET_S = 150
 THOROUGH_BUDGET_S = 900
 CHUNK = 400
 RULE = ("seeded histories of 1-6 concurrent flows (HTTP response/error, WebSocket, TCP, UDP, DNS; complete, "
@@ -231,6 +231,7 @@ class Model:
         self.files: set[str] = set()
         self.dirs: set[str] = {"/", "/sim"}
         self.rejected = 0
+        self.rejected_path_while_active = 0    # updates to an unusable path that were rejected while saving was on
         self.finished = False
         self.probes: dict[str, int] = {}
         self.flushed_once: set[str] = set()
@@ -360,6 +361,8 @@ class Model:
         out["why"] = why
         if reject:
             self.rejected += 1
+            if why != "bad_filter" and self.active:
+                self.rejected_path_while_active += 1
             if why:
                 self.probe("reject_" + why)
             # the rollback re-applies the old options, which samples the formatted path once more
@@ -527,7 +530,7 @@ def _control_script(r, family, nctl):
 def generate(rng, tier):
     r = rng.at("c39")
     family = r.choices(["free", "faulty", "badpath"], [50, 35, 15])[0]
-    nflows = r.choice([1, 2, 2, 3, 3, 4, 5, 6])
+    nflows = r.choice([1, 2, 2, 3, 3, 4, 5, 6] + ([8, 10] if tier == "thorough" else []))
     flows = []
     for k in range(nflows):
         t = r.choice(["http", "http", "ws", "tcp", "udp", "dns"])
@@ -538,7 +541,7 @@ def generate(rng, tier):
             fd["code"] = r.choice([200, 200, 404])
         flows.append(fd)
     actors = [_flow_script(r, fd) for fd in flows]
-    ctl = _control_script(r, family, r.choice([0, 1, 2, 3, 4, 6, 8]))
+    ctl = _control_script(r, family, r.choice([0, 1, 2, 3, 4, 6, 8] + ([12, 16] if tier == "thorough" else [])))
     for op in ctl:
         if op["op"] == "mark":
             op["f"] = r.choice(flows)["id"]
@@ -848,6 +851,8 @@ def execute(sc):
         probes[n] = probes.get(n, 0) + 1
 
     def add_v(cls, key, msg):
+        if key.get("__after_rejected_path_update__"):
+            cls, key, msg = "diverged_after_rejected_path_update", {}, f"[{cls}] {msg}"
         viol.append({"class": cls, "key": key, "msg": msg})
 
     def check(i, op, out, rejected, exited, nlog0):
@@ -887,12 +892,12 @@ def execute(sc):
             if not ctx["relaxed_violation"]:
                 for rc in sorted(act_a - exp_a, key=repr):
                     ctx["relaxed_violation"] = True
-                    cls = "duplicate_after_fault" if exp_a.get(rc, 0) >= 1 else "unexpected_after_fault"
+                    what = "duplicate" if exp_a.get(rc, 0) >= 1 else "unexpected"
                     # failure mode: a failed write in save_flow always ends in sys.exit + done hook; without an
                     # exit the chain starts where the first fault hit (flush inside done(), or an option update)
                     during = "completion" if ctx["exited"] else ctx["first_fault_op"]
-                    add_v(cls, {"during": during, "exited": ctx["exited"]},
-                          f"op {i} {op}: after the injected fault ({dict(fs.fired)}, first during op "
+                    add_v("extra_record_after_fault", {"during": during, "exited": ctx["exited"]},
+                          f"op {i} {op}: {what} record after the injected fault ({dict(fs.fired)}, first during op "
                           f"{ctx['relaxed_from']}, last during a '{ctx['fault_op']}') record {rc} appeared "
                           f"{act_a[rc]}x, the model allows at most {exp_a.get(rc, 0)}x "
                           f"(allowed so far: {sorted(exp_a, key=repr)})")
@@ -900,11 +905,12 @@ def execute(sc):
             return
         if ctx["diverged"]:
             return
-        after_reject = model.rejected > (1 if out["reject"] else 0)
+        after_reject = model.rejected_path_while_active > 0
 
         def rkey(d):
-            # everything that goes wrong after a rejected option update is one failure mode
-            return {"after_rejected_update": True} if after_reject else dict(d, after_rejected_update=False)
+            # Whatever goes wrong with the records once an update to an unusable path was rejected while saving
+            # was on is one failure mode (add_v turns the marker into a class of its own).
+            return {"__after_rejected_path_update__": True} if after_reject else d
         # --- addon errors / exits / option results -------------------------------------------------
         for lvl, et, msg in errs:
             if lvl in ("ERROR", "CRITICAL"):
